@@ -4,6 +4,7 @@ import SlotVerif.Model.Analysis
 import SlotVerif.Model.Match
 import SlotVerif.Model.EMatch
 import SlotVerif.Model.MultiMatch
+import SlotVerif.Model.Add
 import SlotVerif.Driver.Codec
 /-! `snap` protocol (C08/C09/C05): `snap <sig>;<snapshot lines joined by ~>;<query>;<query>...` -/
 namespace SV.Drv
@@ -158,6 +159,54 @@ def showLookup : Option AppId → String
   | some a => s!"{a.id}:{showList (Node.dedupSorted (SlotMap.valuesVec a.m))}"
   | none => "none"
 
+/-! ### `add` on a miss: the model's state after `Snap.addNew` against the implementation's dump after `EGraph::add` -/
+
+def permStr (p : Perm) : String := showMapBar p
+
+def sortStrs (l : List String) : List String :=
+  l.foldl (fun (acc : List String) x =>
+    let rec ins : List String → List String
+      | [] => [x]
+      | y :: t => if x == y then y :: t else if strLt x y then x :: y :: t else y :: ins t
+    ins acc) []
+
+/-- the class group as a set (the generator list that spells it is not an observable) -/
+def groupSet (c : SClass) : List String := sortStrs ((Grp.allPerms (Snap.group c)).map permStr)
+
+def cmpAdd (s : Snap) (n : Node) (res : AppId) (t : Snap) : String :=
+  let newId := s.uf.length
+  match t.cls newId with
+  | none => "diff:no-new-class"
+  | some ct =>
+    match Snap.addNew s n res.m ct.syn ct.data with
+    | none => "model-none"
+    | some (m, a) =>
+      if a.id != res.id then "diff:id"
+      else if t.uf.length != m.uf.length then "diff:uf-length"
+      else if (List.range m.uf.length).any (fun i =>
+          (Snap.ufGet t (t.uf.length + 1) i).map showApp != (Snap.ufGet m (m.uf.length + 1) i).map showApp) then "diff:uf-resolution"
+      else if t.classes.length != m.classes.length then "diff:class-count"
+      else match m.cls newId with
+        | none => "diff:model-no-class"
+        | some cm =>
+          if cm.slots != ct.slots then "diff:slots"
+          else if groupSet cm != groupSet ct then s!"diff:group:{(groupSet cm).length}"
+          else if !(match cm.nodes, ct.nodes with
+              -- the stored bijection is determined up to a symmetry of the new class: which of several equally minimal
+              -- variants `min_by_key` meets first depends on the iteration order of a hash set (`all_perms`)
+              | [(shm, bm)], [(shi, bi)] => showNode shm == showNode shi &&
+                  Grp.contains (Snap.group cm) (SlotMap.composePartial (SlotMap.inverse bm) bi) == some true
+              | _, _ => false) then
+            "diff:node:model=" ++ ",".intercalate (cm.nodes.map fun e => showNode e.1 ++ showMapBar e.2) ++
+              ":impl=" ++ ",".intercalate (ct.nodes.map fun e => showNode e.1 ++ showMapBar e.2)
+          else if s.classes.any (fun c =>
+              match t.cls c.id with
+              | some c' => !(c'.slots == c.slots && c'.gens.map permStr == c.gens.map permStr &&
+                  c'.nodes.map (fun e => (showNode e.1, showMapBar e.2)) == c.nodes.map (fun e => (showNode e.1, showMapBar e.2)))
+              | none => true) then "diff:old-class-changed"
+          else if !m.checkInv then "diff:model-state-not-invariant"
+          else "ok"
+
 def snapQuery (sig : Sig) (s : Snap) (q : String) : String :=
   match words q with
   | ["find", a] => showOptApp (s.find (parseApp a))
@@ -229,6 +278,9 @@ def snapQuery (sig : Sig) (s : Snap) (q : String) : String :=
   | ["lookrec", t] =>
     -- `lookup_rec_expr`: bottom-up lookup of a whole term (a pattern without variables)
     showLookup (MPat.lookupPat s [] (parseMPat t))
+  | ["addnew", n, r, d] =>
+    -- `EGraph::add` of a node that is not yet represented: the dump afterwards against the model of the miss path
+    cmpAdd s (parseFlatNode sig n) (parseApp r) (parseSnap sig ((d.replace "`" " ").replace "^" "~"))
   | ["count", i] => (match s.cls (nat! i) with | some c => toString (Grp.count (Snap.group c)) | none => "none")
   | _ => "bad-query"
 
